@@ -73,3 +73,76 @@ Theorem crash_visible :
   (exists i, i < nrecv s /\ bad i = true) <-> (exists w, nth_error (ws s) w = Some (WExited 1)).
 Proof. exact VisitParP.crash_visible. Qed.
 Print Assumptions crash_visible.
+
+(* --- the walk, for every pyramid, every set of raising positions and every schedule ---
+   (Proofs/WalkParCrash.v, on the invariant of Proofs/WalkParInv.v which is proved for
+   arbitrary [bad]).  [crashed_at s p]: the callback of p was started (Start event in
+   the log), never returned (no End event) and is not running any more (no worker is
+   in KInCb p) — i.e. it raised and killed its worker. *)
+From Toasty Require Import Proofs.ReducerP Proofs.WalkParInv Proofs.WalkParCrash.
+
+(* after a raising callback the walk never returns, whatever is scheduled next: the
+   dispatcher never receives the report of p, hence never releases an ancestor of p,
+   hence never sees the apex; it stays in its polling loop (DSeed/DLoop/DRelease).
+   Only positions with bad p = true, and only operations of the walk, can crash. *)
+Theorem walk_crash_never_returns :
+  forall P par pcap (bad : pos -> bool), wf_pyr P -> 1 <= par -> 1 <= pcap ->
+  forall s0, winit P par pcap = Some s0 ->
+  forall (l l' : list wact) p,
+  crashed_at (wrun bad s0 l) p ->
+  bad p = true /\ In p (spec_ops P) /\
+  let s' := wrun bad s0 (l ++ l') in
+  d_pc s' <> DReturned /\ in_loop (d_pc s') = true /\ crashed_at s' p.
+Proof. exact WalkParCrash.walk_crash_never_returns. Qed.
+Print Assumptions walk_crash_never_returns.
+
+(* what holds and what a repair needs: in every reachable state a callback has
+   raised iff some worker process has (or is about to have) exit status 1 *)
+Theorem walk_crash_visible :
+  forall P par pcap (bad : pos -> bool), wf_pyr P -> 1 <= par -> 1 <= pcap ->
+  forall s0, winit P par pcap = Some s0 ->
+  forall l : list wact,
+  let s := wrun bad s0 l in
+  (exists p, crashed_at s p) <->
+  (exists w ev, nth_error (wks s) w = Some (KExiting 1, ev) \/ nth_error (wks s) w = Some (KExited 1, ev)).
+Proof. exact WalkParCrash.walk_crash_visible. Qed.
+Print Assumptions walk_crash_visible.
+
+(* the hang: [nonpoll bad s l'] counts the steps of l' that are enabled and are not
+   polling moves (queue timeouts / flag tests while the flag is clear).  Every
+   continuation of every reachable state performs at most [measure] of them (polling
+   moves leave the measure unchanged, all others decrease it — for every [bad]) ... *)
+Theorem walk_nonpolling_bounded :
+  forall P par pcap (bad : pos -> bool), wf_pyr P -> 1 <= par -> 1 <= pcap ->
+  forall s0, winit P par pcap = Some s0 ->
+  forall l l' : list wact,
+  nonpoll bad (wrun bad s0 l) l' <= measure (spec_ops P) par (wrun bad s0 l).
+Proof. exact WalkParCrash.walk_nonpolling_bounded. Qed.
+Print Assumptions walk_nonpolling_bounded.
+
+(* ... so after a raising callback every schedule consists, from some point on, of
+   polling moves and no-ops only, and the walk has not returned: it hangs *)
+Theorem walk_crash_eventually_only_polling :
+  forall P par pcap (bad : pos -> bool), wf_pyr P -> 1 <= par -> 1 <= pcap ->
+  forall s0, winit P par pcap = Some s0 ->
+  forall (l l' : list wact) p,
+  crashed_at (wrun bad s0 l) p ->
+  nonpoll bad (wrun bad s0 l) l' <= measure (spec_ops P) par (wrun bad s0 l) /\
+  d_pc (wrun bad s0 (l ++ l')) <> DReturned.
+Proof. exact WalkParCrash.walk_crash_eventually_only_polling. Qed.
+Print Assumptions walk_crash_eventually_only_polling.
+
+(* the premise is satisfiable: the witness schedule above leaves the root crashed *)
+Example walk_crash_nonvacuous :
+  wf_pyr walk_pyr /\
+  match winit walk_pyr 2 4 with
+  | None => False
+  | Some s0 => crashed_at (wrun (fun _ => true) s0 walk_hang_schedule) root
+  end.
+Proof.
+  split; [repeat split; try reflexivity; cbn; auto|]. vm_compute winit.
+  repeat split.
+  - exists 0. vm_compute. auto.
+  - intros w Hin. vm_compute in Hin. destruct Hin as [E|[]]. discriminate.
+  - intros w ev E. vm_compute in E. destruct w as [|[|[|w]]]; discriminate.
+Qed.
